@@ -215,12 +215,24 @@ pub fn run(ctx: &mut Ctx) {
     ctx.extra.insert("instructions_with_recoverable_failure_exercised".into(), json!(hit));
     ctx.extra.insert("instructions_whose_recoverable_failure_was_never_hit".into(), json!(missing));
     ctx.extra.insert("shape_space_exhaustive_over_shapes".into(), json!(true));
+    if ctx.tier == crate::Tier::Thorough && ctx.violations().is_empty() {
+        let t = Tables::build();
+        for bytes in crate::fuzzrun::campaign(ctx, "vm_diff", 8, 300000, 768) {
+            let c = crate::fuzzdec::decode_vm(&bytes, &t);
+            let mut p = Probe::default();
+            let opts = crate::vm_oracle::VmOpts { sweep: true, full_sweep_upto: 24, labels: false };
+            if let Err(f) = crate::vm_oracle::vm_oracle(&t, &c, &opts, &mut p) {
+                ctx.violation("fuzz_vm_diff", &f, serde_json::to_value(&c).unwrap_or(Value::Null));
+            }
+        }
+    }
 }
 
 pub fn replay(ctx: &mut Ctx, sub: &str, case: &Value) {
     let t = Tables::build();
     match sub {
         "skip_semantics" => ctx.replay_case::<VmCase, _>(sub, case, |c, p| oracle_skip(&t, c, p)),
+        "fuzz_vm_diff" => ctx.replay_case::<VmCase, _>(sub, case, |c, p| crate::props::c01::oracle_program(&t, c, p, 24)),
         _ => ctx.replay_case::<VmCase, _>(sub, case, |c, p| oracle_fault(&t, c, p)),
     }
 }
